@@ -17,7 +17,54 @@ Inductive value :=
 | VBlob (pack : nat) (s : bytes)                          (* TINY/-/MEDIUM/LONG BLOB or TEXT *)
 | VEnum (members v : N)
 | VSet (members v : N)
-| VBit (bits v : N).
+| VBit (bits v : N)
+| VFloat (bits : N)                                       (* FLOAT, as its IEEE-754 single bit pattern *)
+| VDouble (bits : N)
+| VJson (doc : jv).
+
+(* JSON documents dolt can hold: byte strings below MySQL's 2^21-1 string limit, object keys (unique, in byte
+   order) below 2^16 bytes, float64 numbers, nesting depth at most 60 *)
+Fixpoint blt (a b : bytes) : bool :=
+  match a, b with
+  | _, [] => false
+  | [], _ :: _ => true
+  | x :: a', y :: b' => (x <? y) || ((x =? y) && blt a' b')
+  end.
+Fixpoint keys_sorted (ks : list bytes) : bool :=
+  match ks with
+  | a :: ((b :: _) as r) => blt a b && keys_sorted r
+  | _ => true
+  end.
+Definition str_ok (s : bytes) (lim : N) : bool := (N.of_nat (length s) <? lim) && forallb (fun c => c <? 256) s.
+Fixpoint jv_ok (depth : nat) (v : jv) : bool :=
+  match depth with
+  | O => false
+  | S d =>
+    match v with
+    | JNull | JTrue | JFalse => true
+    | JNum bits => bits <? 18446744073709551616
+    | JStr s => str_ok s 2097152
+    | JArr l => forallb (jv_ok d) l
+    | JObj l => forallb (fun kv => str_ok (fst kv) 65536 && jv_ok d (snd kv)) l && keys_sorted (map fst l)
+    end
+  end.
+
+Fixpoint jv_eqb (a b : jv) : bool :=
+  match a, b with
+  | JNull, JNull | JTrue, JTrue | JFalse, JFalse => true
+  | JNum x, JNum y => x =? y
+  | JStr x, JStr y => beq_bytes x y
+  | JArr l, JArr m =>
+    (fix go (l m : list jv) : bool :=
+       match l, m with [], [] => true | x :: l', y :: m' => jv_eqb x y && go l' m' | _, _ => false end) l m
+  | JObj l, JObj m =>
+    (fix go (l m : list (bytes * jv)) : bool :=
+       match l, m with
+       | [], [] => true
+       | (k, x) :: l', (k', y) :: m' => beq_bytes k k' && jv_eqb x y && go l' m'
+       | _, _ => false end) l m
+  | _, _ => false
+  end.
 
 Definition frac_aligned (fsp us : N) : bool :=
   (us <? 1000000) &&
@@ -44,6 +91,9 @@ Definition in_domain (v : value) : bool :=
   | VEnum members v => (1 <=? members) && (members <=? 65535) && (v <=? members)
   | VSet members v => (1 <=? members) && (members <=? 64) && (v <? 2 ^ members)
   | VBit bits v => (1 <=? bits) && (bits <=? 64) && (v <? 2 ^ bits)
+  | VFloat bits => bits <? 4294967296
+  | VDouble bits => bits <? 18446744073709551616
+  | VJson doc => jv_ok 60 doc
   end.
 
 Definition opt_eqb {A} (eq : A -> A -> bool) (a : option A) (b : A) : bool :=
@@ -71,4 +121,7 @@ Definition decodes_to (v : value) (b : bytes) : bool :=
   | VEnum members v => opt_eqb N.eqb (dec_enum members b) v
   | VSet members v => opt_eqb N.eqb (dec_set members b) v
   | VBit bits v => opt_eqb N.eqb (dec_bit bits b) v
+  | VFloat bits => opt_eqb N.eqb (dec_float b) bits
+  | VDouble bits => opt_eqb N.eqb (dec_double b) bits
+  | VJson doc => opt_eqb jv_eqb (dec_json_doc 64 b) doc
   end.
